@@ -66,8 +66,9 @@ fn any_map(space: PacketNumberSpace) -> (Map<u16>, Model) {
     }
     kani::assume(occ[0]);
     kani::assume(m.count() <= K);
-    let index: usize = kani::any();
-    kani::assume(index < CAP);
+    // ring offset: concrete 6, so that offsets >= 2 wrap around the end of the buffer (a symbolic offset makes
+    // every slot access a symbolic-index write and did not finish in 15 min)
+    let index: usize = 6;
     let mut hi = 0;
     let mut o = 0;
     while o < CAP {
@@ -112,12 +113,12 @@ fn well_formed(map: &Map<u16>) -> bool {
     }
 }
 
-//@ harness props=C09,C16 tier=thorough level=bounded timeout=1800 bound="K<=3 entries, ring capacity 8, one operation from an arbitrary well-formed state"
+//@ harness props=C09,C16 tier=thorough level=bounded timeout=1800 bound="K<=3 entries, ring capacity 8 with the oldest entry in slot 6 (wrap-around), one operation from an arbitrary well-formed state"
 //@ fn packet::number::Map::remove
 //@ fn packet::number::Map::get
 #[kani::proof]
 #[kani::unwind(10)]
-fn vq_c09_pn_map_remove() {
+fn vq_c09_pn_map_remove_one() {
     let space = any_space();
     let (mut map, m) = any_map(space);
     let target: u64 = kani::any();
@@ -145,7 +146,7 @@ fn vq_c09_pn_map_remove() {
     kani::cover!(true, "reach:end");
 }
 
-//@ harness props=C09,C16 tier=thorough level=bounded timeout=1800 bound="K<=3 entries, ring capacity 8, one operation from an arbitrary well-formed state; removed range any sub-range of packet numbers"
+//@ harness props=C09,C16 tier=thorough level=bounded timeout=1800 bound="K<=3 entries, ring capacity 8 with the oldest entry in slot 6 (wrap-around), one operation from an arbitrary well-formed state; removed range any sub-range of packet numbers"
 //@ fn packet::number::Map::remove_range
 //@ fn packet::number::RemoveIter::next
 #[kani::proof]
@@ -200,7 +201,7 @@ fn vq_c09_pn_map_remove_range() {
     kani::cover!(true, "reach:end");
 }
 
-//@ harness props=C09,C16 tier=thorough level=bounded timeout=1800 bound="K<=3 entries before the insert, ring capacity 8 -> at most one doubling (gap < 16)"
+//@ harness props=C09,C16 tier=thorough level=bounded timeout=1800 bound="K<=3 entries before the insert, ring capacity 8 with the oldest entry in slot 6 -> at most one doubling (gap < 16)"
 //@ fn packet::number::Map::insert
 #[kani::proof]
 #[kani::unwind(18)]
